@@ -99,6 +99,9 @@ func New(cfg Config) *Sys {
 		names = append(names, C)
 	}
 	accts := []string{"r1", "r2", "u1", "u2", "out"}
+	if cfg.TSS {
+		accts = append(accts, "tss")
+	}
 	for _, n := range names {
 		s.w.Add(n, world.Options{Accounts: accts})
 	}
@@ -115,9 +118,10 @@ func New(cfg Config) *Sys {
 					continue
 				}
 				if cfg.TSS && n == A && m == B {
-					// A's client of B is a TSS client whose configured account is u2
-					tcs := &tsstypes.ClientState{TssAddress: c.Accounts["u2"].Acc.String(), Pubkey: []byte{1}, PartPubkeys: [][]byte{{2}}, Threshold: 1}
+					// A's client of B is a TSS client whose configured account is "tss" (also a registered relayer)
+					tcs := &tsstypes.ClientState{TssAddress: c.Accounts["tss"].Acc.String(), Pubkey: []byte{1}, PartPubkeys: [][]byte{{2}}, Threshold: 1}
 					must(c.App.XIBCKeeper.ClientKeeper.CreateClient(ctx, m, tcs, &tsstypes.ConsensusState{}))
+					world.RegisterRelayers(c, ctx, m, "tss")
 				} else {
 					world.CreateTMClient(c, ctx, s.w.Chains[m])
 				}
@@ -154,6 +158,9 @@ func New(cfg Config) *Sys {
 	}
 	return s
 }
+
+// tss reports whether chain `on` follows chain `of` through a TSS client (no proofs: the TSS account's signature is the proof).
+func (s *Sys) tss(on, of string) bool { return s.cfg.TSS && on == A && of == B }
 
 func must(err error) {
 	if err != nil {
@@ -193,7 +200,7 @@ func (s *Sys) Ops() []string {
 	names := s.w.Order
 	for _, on := range names {
 		for _, of := range names {
-			if on != of && s.w.Chains[of].Height() > int64(s.w.Chains[on].ClientLatest(of).RevisionHeight) {
+			if on != of && !s.tss(on, of) && s.w.Chains[of].Height() > int64(s.w.Chains[on].ClientLatest(of).RevisionHeight) {
 				out = append(out, fmt.Sprintf("upd %s %s", short[on], short[of]))
 			}
 		}
@@ -311,6 +318,9 @@ func (s *Sys) sendTx(src, dst *world.Chain, kind string, amount int64) (tx []byt
 
 // proofFor builds (proof, proofHeight) for key on chain `of` as seen by `on`'s client at height h (0 = client's latest).
 func (s *Sys) proofFor(on, of *world.Chain, key []byte, h int64) ([]byte, clienttypes.Height) {
+	if s.tss(on.Name, of.Name) {
+		return []byte("no proof: tss"), clienttypes.NewHeight(0, uint64(of.Height()))
+	}
 	if h == 0 {
 		h = int64(on.ClientLatest(of.Name).RevisionHeight)
 	}
@@ -610,6 +620,9 @@ func (s *Sys) recvMsg(t *transfer, form string) (msgs []sdk.Msg, signer world.Ac
 	dst := s.w.Chains[t.Dst]
 	src := s.w.Chains[t.Src]
 	signer = dst.Accounts["r1"]
+	if s.tss(dst.Name, src.Name) {
+		signer = dst.Accounts["tss"] // every form except g2 carries the TSS account's signature
+	}
 	var p packettypes.Packet
 	must(p.ABIDecode(t.Bytes))
 	key := host.PacketCommitmentKey(p.SrcChain, p.DstChain, p.Sequence)
@@ -670,6 +683,12 @@ func (s *Sys) groundTruthRecv(dst *world.Chain, m *packettypes.MsgRecvPacket, ad
 		add("C02", "accepted-receive-from-unknown-chain", what+" src="+p.SrcChain)
 		return
 	}
+	if s.tss(dst.Name, src.Name) {
+		if m.Signer != dst.Accounts["tss"].Acc.String() {
+			add("C06", "tss-secured-receive-accepted-from-another-signer", fmt.Sprintf("recv %s on %s signed by %s", what, short[dst.Name], m.Signer))
+		}
+		return
+	}
 	canon, _ := p.ABIPack()
 	hc := sha256.Sum256(canon)
 	ver := int64(m.ProofHeight.RevisionHeight) - 1
@@ -709,6 +728,9 @@ func (s *Sys) ackMsg(t *transfer, form string) (sdk.Msg, world.Account, *world.C
 	src := s.w.Chains[t.Src]
 	dst := s.w.Chains[t.Dst]
 	signer := src.Accounts["r1"]
+	if s.tss(src.Name, dst.Name) && form != "conflict" && form != "early" {
+		signer = src.Accounts["tss"] // genuine forms carry the TSS account's signature; forged ones come from an ordinary relayer
+	}
 	var p packettypes.Packet
 	must(p.ABIDecode(t.Bytes))
 	key := host.PacketAcknowledgementKey(p.SrcChain, p.DstChain, p.Sequence)
@@ -778,6 +800,9 @@ func (s *Sys) Key() string {
 		stage := func(holder, verifier *world.Chain, artefactHeight int64) string {
 			if holder == nil || verifier == nil {
 				return "-"
+			}
+			if s.tss(verifier.Name, holder.Name) {
+				return "T"
 			}
 			if int64(verifier.ClientLatest(holder.Name).RevisionHeight) > artefactHeight {
 				n := 0
